@@ -66,8 +66,10 @@ Reopen(h, m) ==
   /\ hs' = [hs EXCEPT ![h] = [mode |-> m, hdr |-> file.hdr] @@ Mapped(h, FALSE)]
   /\ UNCHANGED file /\ Note(a, "ok")
 
+(* h.close() of an open handle (closing a handle that is already closed - in particular an unpickled one, *)
+(* which has no stream - is not constrained by the property and not generated)                              *)
 Close(h) ==
-  /\ hs[h].mode \in {"r", "a", "closed"}
+  /\ hs[h].mode \in {"r", "a"}
   /\ hs' = [hs EXCEPT ![h].mode = "closed"]
   /\ UNCHANGED file /\ Note([act |-> "close", h |-> h], "ok")
 
